@@ -134,7 +134,24 @@ func compileStmt(ctx *blockCtx, stmt ast.Stmt) {
 	case *ast.ExprStmt:
 		x := v.X
 		inFlags := checkCommandWithoutArgs(x)
+		stk := ctx.cb.InternalStack()
+		base := stk.Len()
 		compileExpr(ctx, x, inFlags)
+		if e, ok := x.(*ast.ErrWrapExpr); ok && e.Tok == token.QUESTION && e.Default == nil {
+			// `f()?` as a statement: the values f returns are variables of the inlined code; discard them
+			// explicitly (`_ = v`), a bare `v` statement is not valid Go.
+			if n := stk.Len() - base; n > 0 {
+				vals := append([]*gogen.Element(nil), stk.GetArgs(n)...)
+				stk.PopN(n)
+				for range vals {
+					ctx.cb.VarRef(nil)
+				}
+				for _, val := range vals {
+					stk.Push(val)
+				}
+				ctx.cb.Assign(n)
+			}
+		}
 	case *ast.AssignStmt:
 		compileAssignStmt(ctx, v)
 	case *ast.ReturnStmt:
